@@ -62,6 +62,8 @@ def generate(run_seed, tier):
                   fmt=r.choice(["ssleay", "pkcs8"]),
                   msg=core.hx(r.randbytes(r.choice([0, 1, 16]))),
                   as_str=r.random() < 0.3, mv=r.random() < 0.2,
+                  buf=r.choice(["bytes", "bytes", "bytes", "mv", "bytearray",
+                                "mvw", "arrayB"]),
                   ecdh_curve=r.choice(["none", "same", "same", "other"]))
         nf = r.choice([1, 1, 1, 2, 2, 3])
         pem = e.endswith("_pem")
@@ -81,7 +83,8 @@ def generate(run_seed, tier):
                                   "offcurve_point", "no_params", "only_pub",
                                   "empty_scalar", "short_scalar",
                                   "inner_no_params", "deep_pkcs8", "deep_seq",
-                                  "empty_oid", "empty_bits", "empty_point"])
+                                  "empty_oid", "empty_bits", "empty_point",
+                                  "trailing_element", "trailing_element"])
             it["byz_v"] = r.randrange(1 << 16)
             kinds = kinds[:r.choice([0, 0, 1])]
         it["faults"] = kinds
@@ -192,10 +195,15 @@ def execute(prog):
         elif e.endswith("_pem"):
             # PEM is documented as text: str or bytes, never a memoryview
             arg = data.decode("latin-1") if it["as_str"] else data
-        elif it["mv"]:
-            arg = memoryview(data)
         else:
-            arg = data
+            # the same bytes as different bytes-like objects (read-only and
+            # writable ones)
+            kind_ = it.get("buf", "mv" if it["mv"] else "bytes")
+            if kind_ == "mvw":
+                arg = memoryview(bytearray(data))
+            else:
+                from .c12 import _as_buffer
+                arg = _as_buffer(data, kind_)
         # ---- the call
         def call():
             if e == "vk_from_string":
@@ -350,6 +358,35 @@ def _byzantine(it, e, mc, d, data):
             mder.enc_seq(mder.enc_oid(mder.OID_EC_PUBLIC_KEY),
                          mder.enc_oid(mc.oid)),
             mder.enc_octets(inner)), "PRIVATE KEY")
+    if kind == "trailing_element" and (priv or pub) and structural:
+        # a well-formed outer structure (consistent lengths) whose content
+        # ends with an extra, possibly truncated, element
+        tagb = [0xBF, 0xA0, 0xA1, 0xBF, 0x9F, 0x1F, 0xDF, 0xFF, 0x30, 0x04,
+                0x03, 0x02, 0x06, 0xBE, 0xA2, 0x7F][v % 16]
+        tail = [bytes([tagb]), bytes([tagb]), bytes([tagb]), bytes([tagb, 0]),
+                bytes([tagb, 0x80]), bytes([tagb, 0x81]), bytes([tagb, 1, 0]),
+                bytes([tagb, 0x82, 0, 1, 0])][(v >> 4) % 8]
+        if priv:
+            where = [0, 0, 1, 2][(v >> 8) % 4]
+            parts = [mder.enc_int(1), mder.enc_octets(db)]
+            if where >= 1:
+                parts.append(mder.enc_ctx(0, mder.enc_oid(mc.oid)))
+            if where >= 2:
+                parts.append(mder.enc_ctx(1, mder.enc_bits(pt, 0)))
+            inner = mder.tlv(0x30, b"".join(parts) + tail)
+            if it["fmt"] == "ssleay":
+                return wrap(inner, "EC PRIVATE KEY")
+            return wrap(mder.enc_seq(
+                mder.enc_int(1),
+                mder.enc_seq(mder.enc_oid(mder.OID_EC_PUBLIC_KEY),
+                             mder.enc_oid(mc.oid)),
+                mder.enc_octets(inner)), "PRIVATE KEY")
+        alg = mder.enc_seq(mder.enc_oid(mder.OID_EC_PUBLIC_KEY),
+                           mder.enc_oid(mc.oid))
+        return wrap(mder.tlv(0x30, alg + mder.enc_bits(pt, 0) + tail)
+                    if v % 2 else
+                    mder.tlv(0x30, mder.tlv(0x30, alg[2:] + tail)
+                             + mder.enc_bits(pt, 0)), "PUBLIC KEY")
     if kind == "deep_pkcs8" and priv and structural:
         depth = [3, 40, 400, 1500, 2500][v % 5]
         body = mder.ec_private_key(mc.oid, db, pt)
